@@ -36,7 +36,7 @@ def floors(tier):
     return {"evaluations": 800 if q else 12000, "distinct_nontrivial": 250 if q else 4000, "kind:synth": 500 if q else 8000,
             "kind:curated": 200 if q else 3000, "cycles_checked": 1000 if q else 20000, "no_cycle": 40 if q else 600,
             "start:998": 80 if q else 1200, "start:5000": 80 if q else 1200, "self_loops": 100 if q else 1500, "mem_cycles": 10 if q else 150,
-            "flags_on": 150 if q else 2500, "summary_checked": 700 if q else 10000, "lcd_column_checked": 400 if q else 6000, "report_lcd_column_checked": 400 if q else 6000, "maximum_cycle_with_zero_latency_member": 20 if q else 300, "refdeps_compared": 400 if q else 6000}
+            "flags_on": 150 if q else 2500, "summary_checked": 700 if q else 10000, "lcd_column_checked": 400 if q else 6000, "report_lcd_column_checked": 400 if q else 6000, "report_lcd_list_checked": 300 if q else 5000, "kernels_of_50_or_more_lines": 15 if q else 300, "maximum_cycle_with_zero_latency_member": 20 if q else 300, "refdeps_compared": 400 if q else 6000}
 
 
 def plan(tier, seed):
@@ -163,6 +163,16 @@ def judge(isa, kernel_ast, forms, dg, mm, sem, parser, text, flags, start, R, ca
                             % ([i + 1 for i in cells], [[i + 1 for i in m] for m in member_sets][:3]), case)
             elif not obs and cells:
                 R.violation("column/marks-lines-without-any-cycle", "LCD column of the report is filled on lines %s although no loop-carried dependency is reported" % ([i + 1 for i in cells],), case)
+            # the list under the table shows every reported cycle once, with its members and latency
+            if rep["has_lcd_section"] or obs:
+                R.count("report_lcd_list_checked")
+                shown = sorted((tuple(sorted(by_ln.get(m, -1) for m in e["members"])), round(float(e["latency"]), 1)) for e in rep["lcd_list"])
+                want_l = sorted((tuple(sorted(i for i, w in c)), round(l, 1)) for c, l in obs.items())
+                if shown != want_l:
+                    lost = [x for x in want_l if x not in shown]
+                    extra = [x for x in shown if x not in want_l]
+                    R.violation("list/%s" % ("cycle-not-shown" if lost and not extra else "shows-other-cycles" if extra and not lost else "differs"),
+                                "LCD list of the report shows %d entries for %d cycles; not shown %s, shown but not reported %s" % (len(shown), len(want_l), lost[:3], extra[:3]), case)
     except Exception as e:  # noqa
         R.exception(e, case, prefix="summary/")
     return len(ref) >= 2 or any(len(c) >= 3 for c in ref)
@@ -198,6 +208,19 @@ def one_case(kind, isa, vocab, path, ipath, arch, mseed, kseed, R, sample=True):
     kernel_ast = dense_kernel(krng, isa, vocab, kind == "curated")
     flags = krng.random() < 0.35 and kind == "synth"
     start = krng.choice(STARTS)
+    if kind == "synth" and krng.random() < 0.05:
+        # at and above the 50-line threshold (multi-process search): the dense core spread over independent lines, a line of
+        # the core last; lengths that are and are not multiples of the usual worker counts
+        filler = [v for v in vocab if v["name"] == "fw0a"][0]
+        fpool = D.Pool(krng, isa)
+        total = krng.choice([50, 51, 53, 57, 63, 64])
+        last = kernel_ast[-1:]
+        body = kernel_ast[:-1]
+        while len(body) + len(last) < total:
+            body.insert(krng.randint(0, len(body)), D.instantiate(krng, isa, filler, fpool))
+        kernel_ast = body + last
+        flags = False
+        R.count("kernels_of_50_or_more_lines")
     text = "\n".join(i["text"] for i in kernel_ast) + "\n"
     case = {"kind": kind, "isa": isa, "arch": arch, "model_seed": mseed, "kernel_seed": kseed, "kernel": text, "flags": flags, "start_line": start}
     try:
